@@ -433,6 +433,57 @@ def check_steps(si, ci, functors, d0, steps, what, crosscheck=False):
                 return
 
 
+def pro_stream(rep, rng, n_cases):
+    """Oracle-only stream on self-adjoint wires (rigid.PRO, where x.l == x.r == x): closed
+    loops Cap >> Cup are NOT snakes; every yielded step and the normal form must keep the
+    denotation under an integer tensor functor."""
+    import itertools as it
+    import struct_oracles as so
+    from discopy import rigid
+    x = rigid.PRO(1)
+    out = []
+
+    def grow():
+        d = rigid.Id(rigid.PRO(rng.randint(0, 2)))
+        for _ in range(rng.randint(1, 5)):
+            w = len(d.cod)
+            r = rng.random()
+            if r < 0.4:
+                off = rng.randint(0, w)
+                layer, k = rigid.Cap(x, x), 0
+            elif r < 0.8 and w >= 2:
+                off = rng.randint(0, w - 2)
+                layer, k = rigid.Cup(x, x), 2
+            else:
+                k = rng.randint(0, min(2, w))
+                off = rng.randint(0, w - k)
+                layer = rigid.Box("n%d" % rng.randint(90, 92), rigid.PRO(k), rigid.PRO(rng.randint(0, 2)))
+            d = d >> rigid.Id(rigid.PRO(off)) @ layer @ rigid.Id(rigid.PRO(w - off - k))
+        return d
+    corpus = [rigid.Cap(x, x) >> rigid.Cup(x, x),
+              rigid.Cap(x, x) @ rigid.Id(x) >> rigid.Cup(x, x) @ rigid.Id(x),
+              rigid.Cap(x, x) @ rigid.Id(x) >> rigid.Id(x) @ rigid.Cup(x, x),
+              rigid.Id(x) @ rigid.Cap(x, x) >> rigid.Cup(x, x) @ rigid.Id(x)]
+    for d in corpus + [grow() for _ in range(n_cases)]:
+        rep.case(["pro", repr(d)], nontrivial=True)
+        rep.count("stream:pro")
+        try:
+            steps = list(it.islice(d.normalize(), 80))
+        except Exception as exc:   # noqa
+            out.append(("normalisation of a well-typed PRO diagram raised %s" % type(exc).__name__, d))
+            continue
+        if len(steps) >= 80:
+            continue
+        for dims in ((2,), (3,)):
+            f = so.random_tensor_functor(rng, d, dims=dims)
+            want = so.semantics(f, d)
+            if any(so.semantics(f, s) != want for s in steps):
+                out.append(("a yielded step denotes a different tensor than the input (self-adjoint wires)", d))
+                break
+    for what, d in out:
+        rep.violation(what, {"diagram": repr(d), "replay": "from discopy.rigid import *; list((%r).normalize())" % (d,)})
+
+
 def snippet(req):
     return ("cd /verif/harness && DISCOPY_VERIF=1 PYTHONPATH=/verif/harness:/repo /venv/bin/python -B -c "
             "\"import snake_impl as si; print(si.run(%s).obs)\"" % json.dumps(req))
@@ -578,6 +629,8 @@ def run(tier, seed):
                     rep.violation("NotImplementedError on a connected diagram", payload(nf_req, rn, mn))
             elif code != 7:
                 explain_failure(rep, nf_req, rn, mn, code, ERRNAME, payload)
+    import random as _random
+    pro_stream(rep, _random.Random(seed + 71), 60 if tier == "quick" else 1500)
     settle(rep, proof_ok)
     return rep.finish(
         rule="rigid diagrams given as (dom, cod, boxes, offsets), each run as the full trace of "
